@@ -168,8 +168,13 @@ class FnExec(ExprMixin, CallMixin, StmtMixin):
         self.snapshot_old(st)
         self.entry_pc_len = len(st.pc)
         results = self.exec_block(fn.body, st)
+        is_gen = any(isinstance(n, (ast.Yield, ast.YieldFrom)) for n in ast.walk(fn))
         for st2, flow, val in results:
-            if flow in (Flow.NORMAL,):
+            if is_gen and flow in (Flow.NORMAL, Flow.RETURN):
+                rpt = self.tenv.parse(c.returns)
+                val = st2.env.get("__yielded__") or SV(smt.SeqEmpty(self.tenv.sort(rpt.args[0])), rpt)
+                self.check_post(st2, val)
+            elif flow in (Flow.NORMAL,):
                 self.check_post(st2, None)
             elif flow == Flow.RETURN:
                 self.check_post(st2, val)
